@@ -503,6 +503,7 @@ Outage(d) ==
   /\ NetMode = "fifo" /\ budget > 0 /\ wire[d] # <<>> /\ ~outage[d].on
   /\ LET p == Head(wire[d]) IN
        /\ p.k = "DATA" /\ p.o = 1 /\ ~Holed(p)
+       /\ ~Chans[p.fr.ch].pr        \* ended by a retransmission: the chunk must be one that is retransmitted
        /\ outage' = [outage EXCEPT ![d] = [on |-> TRUE, t |-> RelTsn(p)]]
        /\ faults' = Append(faults, FaultRec(d, p, "outage", NoAfter))
   /\ budget' = budget - 1
